@@ -71,6 +71,20 @@ def pd_part(ex, st, f, j):
     return _fv(uf('pd.part', Val, I, Val)(PD.frame_of(st, f), as_int(j)))
 
 
+@spec('pd_sample_replace')
+def pd_sample_replace(ex, st, f):
+    """pd_sample_replace(f): f was drawn by DataFrame.sample(..., replace=True)."""
+    from pyvc.vals import v_bool
+    return v_bool(uf('pd.sample_replace', Val, VV.B)(PD.frame_of(st, f)))
+
+
+@spec('pd_renumbered')
+def pd_renumbered(ex, st, f):
+    """pd_renumbered(f): f is the result of pd.concat(..., ignore_index=True): its rows are labelled 0..n-1."""
+    from pyvc.vals import v_bool
+    return v_bool(uf('pd.renumbered', Val, VV.B)(PD.frame_of(st, f)))
+
+
 @spec('pd_isin_without')
 def pd_isin_without(ex, st, series, s, x):
     """series.isin(s - {x}) as a mask value."""
